@@ -933,11 +933,22 @@ class Interp:
                         parts.append("<?>")
                         struct_parts.append(val)
         s = "".join(parts)
-        if symbolic and all(isinstance(v, (str, SInt)) and not isinstance(v, SymStr) for v in struct_parts) \
+        def _numlike(v):
+            return isinstance(v, (SInt, SReal)) or (isinstance(v, (list, tuple)) and v and
+                                                    all(isinstance(x, (SInt, SReal, int, float)) for x in v))
+        if symbolic and all((isinstance(v, str) and not isinstance(v, SymStr)) or _numlike(v) for v in struct_parts) \
                 and not any(isinstance(v, ast.FormattedValue) and v.format_spec is not None for v in e.values):
-            # only integers are symbolic: tokenised string (file names, URLs, Range headers)
+            # only numbers (or lists of numbers) are symbolic: tokenised string (file names, URLs, JSON text)
             from . import fsmodel
-            return "".join(fsmodel.tok(v) if isinstance(v, SInt) else v for v in struct_parts)
+
+            def render(v):
+                if isinstance(v, str):
+                    return v
+                if isinstance(v, (list, tuple)):
+                    body = ", ".join(fsmodel.tok(x) if isinstance(x, (SInt, SReal)) else repr(x) for x in v)
+                    return ("[" + body + "]") if isinstance(v, list) else ("(" + body + ")")
+                return fsmodel.tok(v)
+            return "".join(render(v) for v in struct_parts)
         if symbolic:
             r = SymStr(s)
             r.parts = struct_parts
@@ -1935,10 +1946,32 @@ def m_print(interp, *a, **kw):
     return None
 
 
+class SFloatRepr:
+    """str(x) of a symbolic float: only endswith('.0') is supported"""
+    _pyvc_symbolic = True
+    _pyvc_strlike = True
+
+    def __init__(self, x):
+        self.x = x
+
+    def endswith(self, suffix):
+        if suffix != ".0":
+            raise Unsupported("str(float).endswith with another suffix")
+        ctx().trust("repr(float) ends with '.0' exactly for integral values of magnitude < 1e16")
+        x = self.x
+        fl = core.Z.ToInt(x.t)
+        return SBool(core.Z.And(core.Z.ToReal(fl) == x.t, x.t < 10 ** 16, x.t > -(10 ** 16)))
+
+    def truth(self):
+        return True
+
+
 @model(str)
 def m_str(interp, v=""):
     if getattr(v, "_pyvc_strlike", False):
         return v
+    if isinstance(v, SReal):
+        return SFloatRepr(v)
     if contains_sym(v):
         return SymStr("<sym>")
     return str(v)
